@@ -2892,10 +2892,20 @@ class SEVM:
         new_ex_true = None
         new_ex_false = None
 
-        if follow_true:
-            if target not in ex.pgm.valid_jumpdests():
+        if follow_true and target not in ex.pgm.valid_jumpdests():
+            if not follow_false:
                 raise InvalidJumpDestError(f"Invalid jump destination: 0x{target:X}")
 
+            # only the taken side fails: re-execute this JUMPI on a separate branch with a
+            # concretely true condition, so that the error stays confined to that branch
+            # and the fall-through side is still explored
+            err_ex = self.create_branch(ex, cond_true, ex.pc)
+            err_ex.st.push(ONE)
+            err_ex.st.push_any(target)
+            stack.push(err_ex)
+            follow_true = False
+
+        if follow_true:
             if follow_false:
                 new_ex_true = self.create_branch(ex, cond_true, target)
             else:
